@@ -135,6 +135,16 @@ theorem C11_call_leaves_no_value (fns : List Fn) (hfn : FnsOK fns) (toks : List 
   run_stack_empty fns hfn toks ht fuel
 
 open Sakura.Sx in
+/-- evaluating an expression or an argument list (`exec_value`, `exec_args`) leaves the needs-a-value flag as it found it — whatever the
+    tokens do, and also when they leave nothing on the stack (`INT N` without an initial value: the value is then 0).  A statement that
+    follows, on this track or a later one, is therefore run as a statement. -/
+theorem C11_value_restores_flag (run : List Tok → St → St) (runArgs : List Tok → St → List V × St) (toks : List Tok) (s : St) :
+    (valueWith run toks s).2.needRet = s.needRet ∧ (argsWith runArgs toks s).2.needRet = s.needRet ∧
+    ((run toks { s with needRet := true }).stack = [] → (valueWith run toks s).1 = some (.int 0)) := by
+  refine ⟨rfl, rfl, fun h => ?_⟩
+  simp only [valueWith, pop, h]
+
+open Sakura.Sx in
 /-- the same for every statement in every reachable context: run from an empty stack with the flag clear, a statement leaves
     the stack empty and the flag clear; an argument run with the flag set leaves at most one value -/
 theorem C11_stack_discipline (fns : List Fn) (hfn : FnsOK fns) (f : Nat) :
